@@ -159,8 +159,22 @@ class Gate:
         return True
 
 
+_NORM = {}
+
+
+def normalized(fn):
+    """fn with statement-level calls of local lambdas / file-local helpers inlined (facts.inline_stmt_calls)."""
+    from .. import facts as _facts
+    key = id(fn)
+    if key not in _NORM:
+        F = _facts.CURRENT
+        _NORM[key] = (fn, _facts.inline_stmt_calls(fn, F) if (F is not None and fn.get("q") and fn.get("file")) else fn)
+    return _NORM[key][1]
+
+
 def find_gates(fn, aliases=None, blocals=None):
     """All error-reporting `if` nodes of fn with their condition formula and the chain of enclosing conditions."""
+    fn = normalized(fn)
     aliases = aliases if aliases is not None else collect_aliases(fn)
     blocals = blocals if blocals is not None else bool_locals(fn)
     out = []
